@@ -555,6 +555,9 @@ pub struct C17Case {
     pub s2: Vec<f64>,
     pub alpha: f64,
     pub beta: f64,
+    /// homogeneity probe: the seed gamma * s1 (a power of two far from 1); 0 = not probed
+    #[serde(default)]
+    pub gamma: f64,
 }
 
 pub fn c17_case(events: &[Ev], regime: Regime, case: &C17Case) -> (Vec<Violation>, u64) {
@@ -650,6 +653,53 @@ pub fn c17_case(events: &[Ev], regime: Regime, case: &C17Case) -> (Vec<Violation
             }
         }
     }
+    // homogeneity far from 1: the seed gamma * s1 (gamma a power of two, so scaling is exact) must
+    // give gamma times the deposits of s1 - an absolute threshold inside a kernel breaks this
+    if case.gamma != 0.0 {
+        let scaled: Vec<f64> = case.s1.iter().map(|x| x * case.gamma).collect();
+        let f4 = {
+            let mut evs: Vec<Ev> = events[..e].to_vec();
+            evs.push(Ev::Pass { root, seed: Seed::Vals(scaled.clone()), via_clone });
+            run_trace(&evs, regime, false)
+        };
+        if !f4.dead && f4.status_log.get(e) == Some(&1) {
+            let d4 = deposits(&f4, e);
+            let s1abs: Vec<f64> = case.s1.iter().map(|x| x.abs()).collect();
+            let mags1 = match f3.node_of(root) {
+                Some(rn) => f3.g.adjoints(rn, &s1abs),
+                None => return (viols, forks + 1),
+            };
+            for (s, x4) in &d4 {
+                let x1 = match d1.get(s) {
+                    Some(a) => a,
+                    None => continue,
+                };
+                if let (Some((da, a)), Some((dc, c))) = (dep_vals(x1), dep_vals(x4)) {
+                    if da != dc {
+                        continue;
+                    }
+                    let node_mag: Vec<f64> = match f3.node_of(*s).and_then(|n| mags1.get(&n)) {
+                        Some(m) if m.mag.len() == c.len() => m.mag.clone(),
+                        _ => continue,
+                    };
+                    let mmax = node_mag.iter().fold(0.0f64, |p, q| p.max(*q));
+                    let bef: Vec<f64> = match &x4.0 {
+                        Some(o) => o.vals().iter().map(|x| x.abs()).collect(),
+                        None => vec![0.0; c.len()],
+                    };
+                    for i in 0..c.len() {
+                        let want = case.gamma * a[i];
+                        let tol = tol_k() * eps() * (case.gamma.abs() * (node_mag[i] + mmax) + 4.0 * bef[i]) + 1e-300;
+                        if !((c[i] - want).abs() <= tol) {
+                            viols.push(v("C17", "seed_homogeneity", format!("gamma 2^{}", case.gamma.log2()), e, format!("slot s{} element {}: deposit with seed gamma*s1 is {:e}, gamma*deposit(s1) is {:e} (gamma {:e}, s1 {:?})", s, i, c[i], want, case.gamma, case.s1)));
+                            return (viols, forks + 1);
+                        }
+                    }
+                }
+            }
+        }
+        return (viols, forks + 1);
+    }
     (viols, forks)
 }
 
@@ -685,7 +735,13 @@ pub fn c17(out: &RunOut, seed: u64) -> (Vec<Violation>, u64, bool, Option<C17Cas
         let s2 = draw(&mut rng);
         let alpha = *rng.pick(&[2.0, -1.0, 3.0, 0.5, 1.0]);
         let beta = *rng.pick(&[1.0, -2.0, 2.0, -0.5, 0.0]);
-        let case = C17Case { event: p.event, s1: s1.clone(), s2: s2.clone(), alpha, beta };
+        let gamma = match rng.weighted(&[40, 25, 20, 15]) {
+            0 => 0.0,
+            1 => (2.0f64).powi(-60),
+            2 => (2.0f64).powi(-30),
+            _ => (2.0f64).powi(if cfg!(feature = "f32") { 12 } else { 30 }),
+        };
+        let case = C17Case { event: p.event, s1: s1.clone(), s2: s2.clone(), alpha, beta, gamma };
         let independent = n >= 2 && (0..n).any(|i| (0..n).any(|j| s1[i] * s2[j] != s1[j] * s2[i]));
         if independent && !p.root_is_leaf && p.overlapped_earlier {
             nontrivial = true;
